@@ -1163,8 +1163,11 @@ def gen_history(rng, idx):
     # exception safety: calls that are REJECTED or RAISE PART-WAY (bad argument, failing validation, an exception from a
     # callee), placed in front of a valid call whose settings they copy; the caller catches the exception and carries on
     out = [steps[0]]
-    for st in steps[1:]:
-        if rng.chance(0.5):
+    for pos, st in enumerate(steps[1:]):
+        # fixed block: in every rotation-sweep history (ssb / obf / mf by turns) the first overriding call is preceded by a
+        # call that raises AFTER streaming has started; elsewhere by chance
+        forced = kind == "rotation-sweep" and pos == 0
+        if rng.chance(0.5) or forced:
             kern = None
             for kk, al in ALIASES.items():
                 if st.get("alias", case["alias"]).lower() in al:
@@ -1172,6 +1175,8 @@ def gen_history(rng, idx):
             late = ["kernel-call-fault", "ifft-fault", "mask-not-sub"] + (["eps-none"] * 2 if kern == "mf" else [])
             early = ["unknown-kernel", "bad-ab-key", "mask-shape", "batch-zero"]
             fault = rng.choice(late * 2 + early)
+            if forced:
+                fault = late[(idx // 9) % len(late)]
             out.append({"kind": "bad", "fault": fault, "like": dict(st), "ab": st["ab"], "rot": st["rot"], "k": rng.below(1 << 16),
                         "exc": rng.choice(["RuntimeError", "MemoryError", "KeyboardInterrupt"])})
         out.append(st)
@@ -1422,7 +1427,7 @@ def run_bad_step(ctx, hc, t, st, dp, settings, odict, m, bits, fb, gpts):
 
 
 def run_histories(ctx, drv, rng):
-    for idx in range(ctx.n(36, 160)):
+    for idx in range(ctx.n(30, 160)):
         hc = gen_history(rng.fork(idx), idx)
         guarded(ctx, hc, run_history, ctx, drv, hc)
 
@@ -1656,7 +1661,7 @@ def run_repr_case(ctx, rc):
 
 
 def run_repr_cases(ctx, rng):
-    for idx in range(ctx.n(24, 80)):
+    for idx in range(ctx.n(20, 80)):
         rc = gen_repr_case(rng.fork(idx), idx)
         guarded(ctx, rc, run_repr_case, ctx, rc["repr_case"])
 
@@ -1767,7 +1772,7 @@ def run(ctx):
         run_aliases(ctx, drv, ctx.rng.fork(999))
         guarded(ctx, {"defaults_case": True}, run_defaults, ctx, ctx.rng.fork(995))
         run_crop_cases(ctx, ctx.rng.fork(998))
-        nprob = ctx.n(60, 400)
+        nprob = ctx.n(50, 400)
         for idx in range(nprob):
             rng = ctx.rng.fork(idx)
             case = gen_case(rng, idx)
